@@ -2,7 +2,7 @@
 """Runs every seeded change under /verif/seeded/<id>/ against the checks (on a scratch copy of /repo/src with the
 patch applied) and writes /verif/seeded/RESULTS.md + results.json.  usage: vx/run_seeds.py [seed-dir-names...]"""
 import json, os, subprocess, sys, tempfile, shutil, re
-V = "/verif"
+V = os.path.dirname(os.path.dirname(os.path.abspath(__file__)))
 seeds = sorted(d for d in os.listdir(V + "/seeded") if os.path.isdir(V + "/seeded/" + d))
 if len(sys.argv) > 1:
     seeds = [s for s in seeds if s in sys.argv[1:]]
